@@ -520,10 +520,17 @@ class An(ResultQuantifier[T]):
         self._node_.wrap_subtree = True
 
     def evaluate(self) -> Iterable[TypingUnion[T, Dict[TypingUnion[T, SymbolicExpression[T]], T]]]:
-        with symbolic_mode(mode=None):
-            results = self._evaluate__()
-            assert not in_symbolic_mode()
-            yield from map(self._process_result_, results)
+        results = map(self._process_result_, self._evaluate__())
+        while True:
+            # Symbolic mode is switched off only while the next result is computed, never while this iterator is
+            # suspended at a yield, so the caller's mode is untouched between results and whenever the iterator is
+            # closed or dropped.
+            with symbolic_mode(mode=None):
+                try:
+                    result = next(results)
+                except StopIteration:
+                    break
+            yield result
         self._reset_cache_()
 
     def _evaluate__(self, sources: Optional[Dict[int, HashedValue]] = None, yield_when_false: bool = False) -> Iterable[T]:
